@@ -5,8 +5,10 @@ import (
 	"fmt"
 	"sync"
 	"testing"
+	"time"
 
 	bpmn "github.com/olive-io/bpmn/v2"
+	"github.com/olive-io/bpmn/v2/pkg/clock"
 	"github.com/olive-io/bpmn/v2/pkg/id"
 	"github.com/olive-io/bpmn/v2/pkg/tracing"
 	"pgregory.net/rapid"
@@ -30,6 +32,10 @@ type op struct {
 
 type descriptor struct {
 	Ops []op `json:"ops"`
+	// MockClock: the context the generators are created in carries a mock clock
+	// (as every instance driven on a mock clock has it) - and that clock stands
+	// still for the whole case
+	MockClock bool `json:"mockClock,omitempty"`
 }
 
 type genState struct {
@@ -71,6 +77,9 @@ func run(d descriptor) *result {
 	r := &result{}
 	ctx, cancel := context.WithCancel(context.Background())
 	defer cancel()
+	if d.MockClock {
+		ctx = clock.ToContext(ctx, clock.NewMockAt(time.Date(2030, 1, 1, 0, 0, 0, 0, time.UTC)))
+	}
 	tracer := tracing.NewTracer(ctx)
 	sub := tracer.Subscribe()
 	go func() {
@@ -282,6 +291,7 @@ func draw(rt *rapid.T, budget int) descriptor {
 		}
 		d.Ops = append(d.Ops, o)
 	}
+	d.MockClock = rapid.IntRange(0, 2).Draw(rt, "mockClock") == 0
 	return d
 }
 
